@@ -287,12 +287,12 @@ static void sequence_case(Ctx &c, Rng &r, unsigned maxops, size_t maxlen) {
 // The same clauses for Char = wchar_t / char16_t / unsigned char against std::basic_string<Char>. Sources live in GuardedBufs of
 // exactly size*sizeof(Char) bytes and owned buffers come from TrackedAlloc (exact-size blocks): an allocation computed in bytes
 // where characters are meant, or a memcpy counted in characters, is an ASan report or a content mismatch.
-template<typename Char>
+template<typename Char, typename Alloc = TrackedAlloc>
 static void wide_case(Ctx &c, const std::basic_string<Char> &x, const std::basic_string<Char> &y, const char *tname) {
-	using WStr = frg::basic_string<Char, TrackedAlloc>;
+	using WStr = frg::basic_string<Char, Alloc>;
 	using WView = frg::basic_string_view<Char>;
 	using Ref = std::basic_string<Char>;
-	Fixture f;
+	Fixture f; Alloc al(&f.as);
 	auto expect = [&](const WStr &s, const Ref &r, const char *how) {
 		if(c.bad) return;
 		if(s.size() != r.size()) return c.fail("size", strf("%s %s: size()=%zu expected %zu", tname, how, s.size(), r.size()));
@@ -304,15 +304,15 @@ static void wide_case(Ctx &c, const std::basic_string<Char> &x, const std::basic
 	const Char *px = (const Char *)gx.data(), *py = (const Char *)gy.data();
 	WView vx(px, x.size()), vy(py, y.size());
 	{
-		WStr a(px, x.size(), f.al); expect(a, x, "string(ptr,len)");
-		WStr b(vx, f.al); expect(b, x, "string(view)");
+		WStr a(px, x.size(), al); expect(a, x, "string(ptr,len)");
+		WStr b(vx, al); expect(b, x, "string(view)");
 		Ref cz = x.substr(0, x.find(Char(0))); Ref czz = cz; czz.push_back(Char(0));
 		GuardedBuf gc(czz.data(), czz.size() * sizeof(Char));
-		WStr cs((const Char *)gc.data(), f.al); expect(cs, cz, "string(cstr)");
+		WStr cs((const Char *)gc.data(), al); expect(cs, cz, "string(cstr)");
 		if(frg::generic_strlen((const Char *)gc.data()) != cz.size()) c.fail("strlen", strf("%s generic_strlen", tname));
-		WStr fill(x.size(), Char('q'), f.al); expect(fill, Ref(x.size(), Char('q')), "string(size,c)");
+		WStr fill(x.size(), Char('q'), al); expect(fill, Ref(x.size(), Char('q')), "string(size,c)");
 		WStr cp(a); expect(cp, x, "copy");
-		WStr as_(f.al); as_ = a; expect(as_, x, "assignment");
+		WStr as_(al); as_ = a; expect(as_, x, "assignment");
 		{ WStr &r2 = as_; as_ = r2; } expect(as_, x, "self-assignment");
 		for(size_t n : {size_t(0), x.size() / 2, x.size(), x.size() + 3}) { WStr r(a); r.resize(n); if(r.size() != n || !r.data() || r.data()[n] != 0) { c.fail("resize", strf("%s resize(%zu)", tname, n)); break; } for(size_t i = 0; i < std::min(n, x.size()); i++) if(r[i] != x[i]) { c.fail("resize", strf("%s resize(%zu) lost prefix character %zu", tname, n, i)); break; } }
 		WStr cat = a + vy; expect(cat, x + y, "a+view"); expect(a, x, "a after a+view");
@@ -320,7 +320,7 @@ static void wide_case(Ctx &c, const std::basic_string<Char> &x, const std::basic
 		WStr app(a); app += vy; expect(app, x + y, "a+=view");
 		WStr app2(a); app2 += WView(app2); expect(app2, x + x, "a+=view(a)");
 		WStr pb(a); { Ref e = x; for(Char ch : y) { pb.push_back(ch); e.push_back(ch); } pb += Char('z'); e.push_back(Char('z')); expect(pb, e, "push_back/+=char sequence"); }
-		WStr o(py, y.size(), f.al);
+		WStr o(py, y.size(), al);
 		int cmp = a.compare(o);
 		int refc = x.size() != y.size() ? (x.size() < y.size() ? -1 : 1) : 0;
 		if(!refc) for(size_t i = 0; i < x.size(); i++) if(x[i] != y[i]) { refc = x[i] < y[i] ? -1 : 1; break; }
@@ -347,7 +347,7 @@ static void wide_case(Ctx &c, const std::basic_string<Char> &x, const std::basic
 	{ Ref d; for(char ch : std::string("40213")) d.push_back(Char(ch)); GuardedBuf gd(d.data(), d.size() * sizeof(Char)); auto v = WView((const Char *)gd.data(), d.size()).template to_number<int>(); if(!v || *v != 40213) c.fail("to_number", strf("%s to_number(\"40213\")", tname)); }
 }
 
-template<typename Char>
+template<typename Char, typename Alloc = TrackedAlloc>
 static void wide_sweep(const char *tname) {
 	std::string mode = std::string("wide:") + tname;
 	if(!want_mode(mode.c_str())) return;
@@ -360,7 +360,7 @@ static void wide_sweep(const char *tname) {
 		if(!want_case(p)) continue;
 		begin_case(mode.c_str(), p);
 		Ctx c; c.what = strf("%s pair #%llu of all strings over {a,b,NUL,high} up to length 3", tname, (unsigned long long)p);
-		guarded(g_prop.c_str(), [&] { wide_case<Char>(c, all[p / all.size()], all[p % all.size()], tname); });
+		guarded(g_prop.c_str(), [&] { wide_case<Char, Alloc>(c, all[p / all.size()], all[p % all.size()], tname); });
 		note_distinct(mix(hash_str(mode), p)); count("wide_char_cases");
 	}
 	Rng r(derive_seed(mode.c_str()));
@@ -370,7 +370,7 @@ static void wide_sweep(const char *tname) {
 		for(size_t k = r.below(40); k; k--) x.push_back(r.chance(1, 8) ? Char(0) : Char(r.next()));
 		for(size_t k = r.below(12); k; k--) y.push_back(r.chance(1, 3) && !x.empty() ? x[r.below(x.size())] : Char(r.next()));
 		Ctx c; c.what = strf("%s random pair #%llu (lengths %zu, %zu)", tname, (unsigned long long)i, x.size(), y.size());
-		guarded(g_prop.c_str(), [&] { wide_case<Char>(c, x, y, tname); });
+		guarded(g_prop.c_str(), [&] { wide_case<Char, Alloc>(c, x, y, tname); });
 		note_distinct(mix(hash_str(mode), npairs + i + opt.shard * 1000003ull)); count("wide_char_cases");
 	}
 }
@@ -416,6 +416,8 @@ int main(int argc, char **argv) {
 	wide_sweep<wchar_t>("wchar_t");
 	wide_sweep<char16_t>("char16_t");
 	wide_sweep<unsigned char>("unsigned char");
+	wide_sweep<char, TrackedAllocR>("char, allocator with reallocate()"); // an allocator that offers the optional reallocate() member
+	wide_sweep<wchar_t, TrackedAllocR>("wchar_t, allocator with reallocate()");
 	if(want_mode("rand")) {
 		Rng sr(derive_seed("rand"));
 		uint64_t n = scaled(1500, 60000);
